@@ -15,6 +15,10 @@ def run(ctx):
         t = 1 if ctx.thorough else 0
         for r in range(12):
             jobs.append((exe, ["perm", r, t], be))
+        # call histories from a cold process: first call at round f (thorough: first two calls at f1, f2), then every starting round
+        for f1 in range(12):
+            for f2 in (range(-1, 12) if ctx.thorough else (-1,)):
+                jobs.append((exe, ["order", f1, f2, 0], be))
         jobs.append((exe, ["bytes", t], be))
         jobs.append((exe, ["seq", 5 if ctx.thorough else 3], be))
     common.parallel(lambda j: common.run_harness(ctx, j[0], j[1], label=j[2]), jobs)
@@ -22,6 +26,7 @@ def run(ctx):
         "each implemented round is a map of algebraic degree <= 2 over GF(2) (true for any AND-depth-1 bit-sliced round), so agreement on all inputs of weight <= 2 "
         "determines it; every backend enters straight-line per-round code at first_round, so downward induction from first_round 11 to 0 extends agreement to all 2^320 states",
         "byte-range operations are GF(2)-affine in (state, data): zero + every unit vector of state and data determines them; dense pairs test the assumption",
+        "call history: a permutation may keep process-wide state (lazily built tables); every first call (thorough: every pair of first calls) of a cold process x the full sweep over all 12 starting rounds is run in its own process",
         "all access is through the public interface (overwrite_bytes / op / extract_bytes), which is itself part of what is being checked",
     ]
     cov = dict(evaluations=ctx.stats.get("evaluations", 0), distinct_nontrivial=ctx.stats.get("nontrivial", 0),
